@@ -13,10 +13,10 @@
   with `Supported` = the negation of the known defect classes D-C01a/c/d/e/f.  What is proved of it
   here is `iter_eq_spec_daily_partial` and `iter_eq_spec_yearly_monthly_partial`: FREQ = DAILY,
   MONTHLY or YEARLY with any INTERVAL ≥ 1, BYMONTH, BYMONTHDAY, BYYEARDAY, plain BYDAY (any BYDAY for
-  DAILY), the defaults taken from the start, COUNT, UNTIL.  Missing: WEEKLY (truncated first week)
-  and the three sub-daily frequencies (the model skips empty periods, so the refinement is not
-  period-by-period), the three computed masks (BYWEEKNO, nth BYDAY, BYEASTER), BYSETPOS, and
-  non-default BYHOUR/BYMINUTE/BYSECOND.  Everything else below — including
+  DAILY), BYHOUR, BYMINUTE, BYSECOND, the defaults taken from the start, COUNT, UNTIL.  Missing:
+  WEEKLY (truncated first week) and the three sub-daily frequencies (the model skips empty periods,
+  so the refinement is not period-by-period), the three computed masks (BYWEEKNO, nth BYDAY,
+  BYEASTER) and BYSETPOS.  Everything else below — including
   `iter_strictMono` for all seven frequencies — is proved for ALL rules / all argument sets, with no
   `Supported` hypothesis (so also inside the known-defect classes).
 -/
@@ -229,8 +229,8 @@ theorem filter_is_calendar (r : Rule) (hs : SimpleRule r) (y m : Int) (info : In
   exact dayFiltered_simple hs f hn i h0 h1
 
 /-- **`iter_eq_spec`, proved portion** (see the header for the full statement and what is missing):
-    FREQ=DAILY, INTERVAL ≥ 1, valid start, any BYMONTH / BYMONTHDAY (members ≠ 0) / BYYEARDAY / BYDAY,
-    any COUNT / UNTIL — the model yields exactly the specification's recurrence set, for every number
+    FREQ=DAILY, INTERVAL ≥ 1, valid start, any BYMONTH / BYMONTHDAY (members ≠ 0) / BYYEARDAY / BYDAY /
+    BYHOUR / BYMINUTE / BYSECOND, any COUNT / UNTIL — the model yields exactly the specification's recurrence set, for every number
     of periods inside datetime's range. -/
 theorem iter_eq_spec_daily_partial (a : Args) (r : Rule) (da : DailyArgs a) (h : construct a = .ok r)
     (n : Nat) (hn : Spec.RRule.startOrd a + n * a.interval ≤ maxOrdinal) :
@@ -239,7 +239,7 @@ theorem iter_eq_spec_daily_partial (a : Args) (r : Rule) (da : DailyArgs a) (h :
 
 /-- **`iter_eq_spec`, proved portion, YEARLY / MONTHLY**: INTERVAL ≥ 1, valid start, any BYMONTH /
     BYMONTHDAY (members ≠ 0) / BYYEARDAY / plain BYDAY — or none, in which case the month and month
-    day come from the start —, any COUNT / UNTIL: exactly the specification's recurrence set, for every
+    day come from the start —, any BYHOUR / BYMINUTE / BYSECOND, any COUNT / UNTIL: exactly the specification's recurrence set, for every
     number of periods ending by year 9999. -/
 theorem iter_eq_spec_yearly_monthly_partial (a : Args) (r : Rule) (ya : YMArgs a) (h : construct a = .ok r)
     (n : Nat) (hy : a.freq = 0 → a.dtstart.y + n * a.interval ≤ 9999)
@@ -259,11 +259,13 @@ def dates (x : Py.R Rule) (n : Nat) : List (Int × Int × Int) :=
 
 -- a DailyArgs instance: every 3rd day, Fridays the 13th … (hypotheses of iter_eq_spec_daily_partial are satisfiable)
 example : DailyArgs { freq := 3, dtstart := dt 2024 2 28 9 30, interval := 3, bymonth := some [2, 3],
-                      byweekday := some [(4, 0), (5, 0)], count := some 4 } :=
-  ⟨rfl, by decide, by decide, rfl, rfl, rfl, rfl, rfl, rfl, by intro x hx; simp at hx⟩
+                      byweekday := some [(4, 0), (5, 0)], byhour := some [8, 20], count := some 4 } :=
+  ⟨rfl, by decide, by decide, rfl, rfl, rfl, by intro x hx; simp at hx⟩
 -- a YMArgs instance: the 31st of every 2nd month from 2024-01-31 (months without a 31st are skipped, never coerced)
 example : YMArgs { freq := 1, dtstart := dt 2024 1 31 8, interval := 2, count := some 3 } :=
-  ⟨Or.inr rfl, by decide, by decide, rfl, rfl, rfl, rfl, rfl, rfl, by intro x hx; simp at hx, by intro w hw; simp at hw⟩
+  ⟨Or.inr rfl, by decide, by decide, rfl, rfl, rfl, by intro x hx; simp at hx, by intro w hw; simp at hw⟩
+example : (construct { freq := 3, dtstart := dt 2024 2 28 9 30, byhour := some [20, 8], byminute := some [0] }).map (·.timeset)
+    = .ok (some [(8, 0, 0), (20, 0, 0)]) := by decide +kernel
 example : dates (construct { freq := 1, dtstart := dt 2024 1 31 8, interval := 2, count := some 3 }) 6
     = [(2024, 1, 31), (2024, 3, 31), (2024, 5, 31)] := by decide +kernel
 example : dates (construct { freq := 3, dtstart := dt 2024 2 28 9 30, interval := 1, bymonthday := some [-1], count := some 3 }) 70
